@@ -175,9 +175,18 @@ def NoAdjWords : List Tk → Prop
   | [_] => True
   | a :: b :: rest => ¬ (a.isWord = true ∧ b.isWord = true) ∧ NoAdjWords (b :: rest)
 
+/-- "the previous character is not an identifier character (or there is none)" -/
+def bnd : Option Char → Bool
+  | none => true
+  | some q => !isWordChar q
+/-- "the text starts with a non-identifier character (or is empty)" -/
+def endOk : List Char → Bool
+  | [] => true
+  | d :: _ => !isWordChar d
+
 /-- the character before the text permits a word to start here -/
 def BoundaryOk (prev : Option Char) : List Tk → Prop
-  | .word _ :: _ => match prev with | none => True | some q => isWordChar q = false
+  | .word _ :: _ => bnd prev = true
   | _ => True
 
 /-- the replacement: every word equal to the parameter becomes `rep`, everything else is kept -/
@@ -237,15 +246,6 @@ theorem isPrefix_append_self (p r : List Char) : isPrefix p (p ++ r) = true := b
   induction p with
   | nil => rfl
   | cons a as ih => simp [isPrefix, ih]
-
-/-- "the previous character is not an identifier character (or there is none)" -/
-def bnd : Option Char → Bool
-  | none => true
-  | some q => !isWordChar q
-/-- "the text starts with a non-identifier character (or is empty)" -/
-def endOk : List Char → Bool
-  | [] => true
-  | d :: _ => !isWordChar d
 
 theorem replaceWord_step (p rep : List Char) (fuel : Nat) (prev : Option Char) (c : Char) (cs : List Char) :
     replaceWord p rep (fuel + 1) prev (c :: cs) =
@@ -325,5 +325,91 @@ theorem replaceWord_word (p rep : List Char) (hp : p ≠ []) (hpw : ∀ c ∈ p,
         rw [replaceWord_inside p rep cs r fuel c hc (fun x hx => hww x (by simp [hx]))
           (by simp only [List.length_append]; omega)]
         simp [List.getLast?_eq_some_getLast]
+
+/-- the text of a well-formed token list starting with a separator (or empty) starts with a
+    non-identifier character (or is empty) -/
+theorem endOk_flat (ts : List Tk) (hwf : ∀ t ∈ ts, t.WF) (h : ∀ w rest, ts ≠ .word w :: rest) : endOk (flat ts) = true := by
+  cases ts with
+  | nil => rfl
+  | cons t rest =>
+    cases t with
+    | word w => exact absurd rfl (h w rest)
+    | sep s =>
+      have := hwf (.sep s) (by simp)
+      obtain ⟨hne, hall⟩ := this
+      cases s with
+      | nil => exact absurd rfl hne
+      | cons c cs => simp [flat, Tk.chars, endOk, hall c (by simp)]
+
+theorem getLast?_bnd_sep (s : List Char) (hne : s ≠ []) (hall : ∀ c ∈ s, isWordChar c = false) : bnd s.getLast? = true := by
+  rw [List.getLast?_eq_some_getLast hne]
+  simp [bnd, hall _ (List.getLast_mem hne)]
+
+/-- **Whole-word substitution.**  On any text made of words (maximal runs of identifier characters)
+    and separators, `replaceWord` — the model of `Regex::new(r"\b{p}\b").replace_all` — replaces
+    exactly the words equal to the parameter and copies everything else, for every body, every
+    parameter name and every replacement text. -/
+theorem replaceWord_tokens (p rep : List Char) (hp : p ≠ []) (hpw : ∀ c ∈ p, isWordChar c = true) :
+    ∀ (ts : List Tk) (fuel : Nat) (prev : Option Char), (∀ t ∈ ts, t.WF) → NoAdjWords ts → BoundaryOk prev ts →
+      (flat ts).length < fuel → replaceWord p rep fuel prev (flat ts) = substWord p rep ts := by
+  intro ts
+  induction ts with
+  | nil =>
+    intro fuel prev _ _ _ hf
+    cases fuel with
+    | zero => simp [flat] at hf
+    | succ f => simp [flat, substWord, replaceWord]
+  | cons t rest ih =>
+    intro fuel prev hwf hadj hb hf
+    have hwfr : ∀ t ∈ rest, t.WF := fun x hx => hwf x (by simp [hx])
+    have hadjr : NoAdjWords rest := by
+      cases rest with
+      | nil => trivial
+      | cons b r => exact hadj.2
+    have hflat : flat (t :: rest) = t.chars ++ flat rest := by simp [flat]
+    have hsub : substWord p rep (t :: rest) = (if t = .word p then rep else t.chars) ++ substWord p rep rest := by
+      simp [substWord]
+    rw [hflat] at hf ⊢
+    rw [hsub]
+    cases t with
+    | sep s =>
+      obtain ⟨hne, hall⟩ := hwf (.sep s) (by simp)
+      simp only [Tk.chars] at hf ⊢
+      rw [replaceWord_sep p rep hp hpw s (flat rest) fuel prev hne hall hf]
+      have hb' : BoundaryOk s.getLast? rest := by
+        cases rest with
+        | nil => trivial
+        | cons b r =>
+          cases b with
+          | word w => exact getLast?_bnd_sep s hne hall
+          | sep _ => trivial
+      rw [ih (fuel - s.length) s.getLast? hwfr hadjr hb' (by simp only [List.length_append] at hf; omega)]
+      simp
+    | word w =>
+      obtain ⟨hne, hall⟩ := hwf (.word w) (by simp)
+      simp only [Tk.chars] at hf ⊢
+      have hend : endOk (flat rest) = true := by
+        apply endOk_flat rest hwfr
+        intro w2 r2 e
+        subst e
+        exact hadj.1 ⟨rfl, rfl⟩
+      rw [replaceWord_word p rep hp hpw w (flat rest) fuel prev hne hall hb hend hf]
+      have hb' : BoundaryOk w.getLast? rest := by
+        cases rest with
+        | nil => trivial
+        | cons b r =>
+          cases b with
+          | word w2 => exact absurd ⟨rfl, rfl⟩ hadj.1
+          | sep _ => trivial
+      rw [ih (fuel - w.length) w.getLast? hwfr hadjr hb' (by simp only [List.length_append] at hf; omega)]
+      congr 1
+      by_cases e : w = p <;> simp [e]
+
+/-- non-vacuity: a real body, tokenised, satisfies the hypotheses and `x` is replaced as a word only -/
+example :
+    let ts : List Tk := [.word "mov".toList, .sep " ".toList, .word "x".toList, .sep ", ".toList, .word "xx".toList,
+                         .sep " + ".toList, .word "x".toList]
+    replaceWord "x".toList "ax".toList 100 none (flat ts) = "mov ax, xx + ax".toList := by
+  decide +kernel
 
 end Emu8086.Props.C13
